@@ -24,6 +24,7 @@ type FnExec struct {
 	heapSorts map[string]string
 	vacSeen   map[string]int
 	lemmaName string // set while a lemma is checked
+	curResults []Term
 	pendingWF []pendingWF
 	curSite   ssa.Instruction // call site whose contract is being applied
 	curFrame  *frame
@@ -89,7 +90,10 @@ func (fx *FnExec) emit(st *State, fr *frame, kind, detail string, goal Term, pro
 	if fr != nil && fr.tag != "" {
 		name += "@" + fr.tag
 	}
-	o := &Obligation{Name: name, Kind: kind, Fn: shortFn(fx.fn), Props: props, Assumes: append([]Term(nil), st.pc...), Goal: goal, Path: st.pathString(), Src: src}
+	o := &Obligation{Name: name, Kind: kind, Fn: shortFn(fx.fn), Props: props, Assumes: append([]Term(nil), st.pc...), Goal: goal, Path: st.pathString(), Src: src, fx: fx}
+	if kind == "ensures" && fr != nil && fr.parent == nil {
+		o.Results = fx.curResults
+	}
 	fx.obls = append(fx.obls, o)
 }
 
